@@ -80,6 +80,21 @@ func checkC15(c *Ctx) {
 					}
 				}
 			}
+			if g == nil {
+				// the address of a package-level variable handed to a call (method call on a
+				// global such as sync.Map.Store, or &global passed on): hidden shared state
+				if ci, ok := ins.(ssa.CallInstruction); ok {
+					args := append([]ssa.Value{}, ci.Common().Args...)
+					if ci.Common().IsInvoke() {
+						args = append(args, ci.Common().Value)
+					}
+					for _, a := range args {
+						if gg, ok := a.(*ssa.Global); ok {
+							g, what = gg, "passed by address to "+ci.Common().String()
+						}
+					}
+				}
+			}
 			if g == nil || g.Pkg == nil {
 				return
 			}
